@@ -31,8 +31,9 @@ import (
 func TestMain(m *testing.M) { hx.Main(m, "C10") }
 
 const (
-	sigStatus = "C10/status-token-nondigit-or-overflow"
-	sigFold   = "C10/upgrade-value-unicode-fold"
+	sigProtoDup = "C10/unrequested-subprotocol-after-requested"
+	sigStatus   = "C10/status-token-nondigit-or-overflow"
+	sigFold     = "C10/upgrade-value-unicode-fold"
 )
 
 // ---------------------------------------------------------------------------
@@ -604,6 +605,16 @@ func withoutFoldOnly(r *respgen.Response) (*respgen.Response, bool) {
 	return c, true
 }
 
+// firstProtocolRequested reports whether the first Sec-WebSocket-Protocol line of r carries a requested value.
+func firstProtocolRequested(r *respgen.Response, cfg respgen.Config) bool {
+	for _, l := range r.Lines {
+		if l.Raw == "" && asciiFoldEq(l.Name, "sec-websocket-protocol") {
+			return l.Accept == respgen.AcceptLiteral && cfg.Requested(strings.Trim(l.Pre+l.Value+l.Post, " \t"))
+		}
+	}
+	return false
+}
+
 // judge is the response-side oracle. It returns a violation text or "".
 func judge(o *outcome, r *respgen.Response, cfg respgen.Config, cl respgen.Class) string {
 	if o.panicked != nil {
@@ -647,6 +658,12 @@ func judge(o *outcome, r *respgen.Response, cfg respgen.Config, cl respgen.Class
 			hx.Exclude(sigFold)
 			verdict = respgen.Open
 		}
+	}
+	if verdict == respgen.MustFail && hx.Known(sigProtoDup) && len(cl.Fail) == 1 && cl.Fail[0] == "protocol:dup-mixed" && firstProtocolRequested(r, cfg) {
+		// predicate of sigProtoDup: the only reason to refuse is an unrequested
+		// value on a later Sec-WebSocket-Protocol line
+		hx.Exclude(sigProtoDup)
+		verdict = respgen.Open
 	}
 	switch verdict {
 	case respgen.MustFail:
@@ -1603,6 +1620,17 @@ func TestKnownFindings(t *testing.T) {
 	}
 	hx.Probe(t, sigStatus, "Dialer.Upgrade accepts a status token that is not 101: "+strings.Join(hit, " "), len(hit) > 0, hit)
 
+	// A second Sec-WebSocket-Protocol line with a value that was not requested.
+	hit = nil
+	for _, second := range []string{"chatx", "v2.unknown", "Chat", ""} {
+		r := respgen.Valid()
+		r.Lines = append(r.Lines, respgen.Line{Name: "Sec-WebSocket-Protocol", Pre: " ", Value: "chat"}, respgen.Line{Name: "Sec-WebSocket-Protocol", Pre: " ", Value: second})
+		if accepted(r, respgen.Config{Protocols: []string{"chat", "superchat"}}) {
+			hit = append(hit, fmt.Sprintf("%q", second))
+		}
+	}
+	hx.Probe(t, sigProtoDup, "Dialer.Upgrade (Protocols chat, superchat) accepts 'Sec-WebSocket-Protocol: chat' followed by a second 'Sec-WebSocket-Protocol: "+strings.Join(hit, " / ")+"' and reports chat", len(hit) > 0, hit)
+
 	// Upgrade value compared with Unicode case folding.
 	hit = nil
 	for _, v := range respgen.UpgradeFoldOnly {
@@ -1827,6 +1855,18 @@ func TestModelSelfCheck(t *testing.T) {
 		}), respgen.MustFail},
 		"ext-case": {mod(func(r *respgen.Response) {
 			r.Lines = append(r.Lines, respgen.Line{Name: "Sec-WebSocket-Extensions", Pre: " ", Value: "X-A"})
+		}), respgen.MustFail},
+		"ext-twice": {mod(func(r *respgen.Response) {
+			r.Lines = append(r.Lines, respgen.Line{Name: "Sec-WebSocket-Extensions", Pre: " ", Value: "x-a, x-a; p=1"})
+		}), respgen.MustSucceed},
+		"proto-empty": {mod(func(r *respgen.Response) {
+			r.Lines = append(r.Lines, respgen.Line{Name: "Sec-WebSocket-Protocol", Pre: " ", Value: ""})
+		}), respgen.MustFail},
+		"proto-good-then-bad": {mod(func(r *respgen.Response) {
+			r.Lines = append(r.Lines, respgen.Line{Name: "Sec-WebSocket-Protocol", Pre: " ", Value: "chat"}, respgen.Line{Name: "Sec-WebSocket-Protocol", Pre: " ", Value: "chatx"})
+		}), respgen.MustFail},
+		"proto-two-good": {mod(func(r *respgen.Response) {
+			r.Lines = append(r.Lines, respgen.Line{Name: "Sec-WebSocket-Protocol", Pre: " ", Value: "chat"}, respgen.Line{Name: "Sec-WebSocket-Protocol", Pre: " ", Value: "superchat"})
 		}), respgen.Open},
 		"0101":     {mod(func(r *respgen.Response) { r.Status = "0101" }), respgen.MustFail},
 		"0101+bad": {mod(func(r *respgen.Response) { r.Status = "0101"; r.Lines[0].Value = "h2c" }), respgen.MustFail},
